@@ -18,24 +18,28 @@ CFG = {
     "level_note": (
         "Trusted: Coq kernel + vm_compute; hand-written model C06_Model.v tied by the correspondence run; the lint's claim "
         "that Generate / GenIDByTS are one critical section each (then a concurrent execution is the sequence of critical "
-        "sections in lock order, which c06_hard_any_schedule quantifies over); the harness' lock-order witness is checked "
+        "sections in lock order, which c06_hard_any_schedule / c06_nano_any_schedule quantify over); for concurrent HardNode cases "
+        "the clock hook yields inside Generate (schedule forcing) so that an unprotected read-modify-write shows up as a duplicate id; "
+        "the harness' lock-order witness is checked "
         "by Coq (linearize), not trusted; transport encoding of case terms as differences (decoded in Coq). "
         "The only guard of the theorems is the 63-bit format (hard_dom: time below 2^(63-timeShift); nano_dom: below 2^63); "
         "outside it the model still matches the code bit for bit (wrap64) and the monitor abstains. "
         "MonoNode: its clock cannot be injected, so case_accept replays the model on the readings the ids carry and requires "
         "them non-decreasing (Go's monotonic clock: assumption); case_holds for MonoNode is unguarded (strict increase + node "
         "field). case_sound is proved through model_holds lemmas (not by conjunction). "
-        "The concurrent clause for MonoNode / UnixNanoID is covered by the sequential theorems over all reading / timestamp "
-        "sequences plus the lint; a separate schedule theorem is stated for HardNode only. No -race run is part of the check "
+        "The concurrent clause for MonoNode is covered by the sequential theorem over all reading "
+        "sequences plus the lint. Setup is modelled (fold of the three options) with the theorem that every reachable layout has "
+        "node width 8, 9 or 10. No -race run is part of the check "
         "(the driver builds without -race); concurrent callers are exercised natively with up to 16 (quick) / 64 (thorough) goroutines."
     ),
     "rule": (
         "one case = one generator instance driven through one history: HardNode with a scripted wall clock (all six layouts, "
         "epochs incl. 0 / negative / after 2262, nodes 0/1/max/random, restart ids: 0, last issued id (chains), seeded just below "
         "the step wrap, arbitrary int64), 1..64 callers; MonoNode on the real monotonic clock (tight / yielding / napping callers, "
-        "9000-call tight loops that cross the 4096 wrap); UnixNanoID and UnixNanoNoLockID with supplied timestamps and with GenID. "
+        "9000-call tight loops that cross the 4096 wrap); UnixNanoID and UnixNanoNoLockID with supplied timestamps and with GenID; "
+        "Setup with random option lists probed through IDParse / IDFields. "
         "Non-trivial = the generator was constructed, at least two ids were issued and the history lies inside the representable "
-        "range (so every clause of case_holds is actually evaluated); distinct = distinct Coq term"
+        "range (so every clause of case_holds is actually evaluated; for Setup: at least one option); distinct = distinct Coq term"
     ),
     "trusted": [
         "verif hooks snowflake.VerifSetNow / VerifSetConfig (zz_verif.go); the scripted clock hands out readings in the order the hook is called (under the node mutex)",
